@@ -260,26 +260,35 @@ def gen_simple(rng, n):
 def gen_rdbi(rng, n):
     out = []
     fixed = [d for d, k in DIDS.items() if k[1] is not None and k[0] != 'ascii']     # decode of these codecs is total (model contract)
-    for _ in range(n):
+    # whatever the seed: requests that name an identifier more than once (two overlapping groups concatenated) - transmitted as given, answered once per entry
+    dup_corpus = [[0x1234, 0x5678, 0x1234], [0x1234, 0x1234], [0xFFFF, 0x0102, 0xFFFF, 0x5678], [0x0102, 0x1234, 0x0102, 0x1234]]
+    for idx in range(n):
         default = rng.choice([None, None, ('B', 3)])
         k = rng.choice([1, 1, 2, 3, 4])
         lst = rng.sample(fixed, min(k, len(fixed)))
-        if rng.random() < 0.25:
+        if idx < len(dup_corpus):
+            lst = list(dup_corpus[idx])
+        elif rng.random() < 0.15:
+            lst = lst + [rng.choice(lst)]
+        elif rng.random() < 0.25:
             lst = lst + [rng.choice([0xEEEE, 0xEEEF])]
-        if rng.random() < 0.2 and default is not None:
+        if rng.random() < 0.2 and default is not None and idx >= len(dup_corpus):
             lst[0] = 0x4321
         tol = rng.random() < 0.6
         vals = {}
         good = b''
         echo = []
+        seen_ = set()
         for d in lst:
             kind = DIDS.get(d, default)
             ln = kind[1] if kind[1] is not None else rng.randrange(0, 5)
             v = (bytes(rng.randrange(0x20, 0x7F) for _ in range(ln)) if rng.random() < 0.5 else vb(rng, ln)) if rng.random() < 0.8 else bytes(ln)
+            v = vals.get(d, v)          # an identifier named twice is answered twice with the same data
             vals[d] = v
-            echo.append(('data identifier', len(good), 2))
+            echo.append(('data identifier' if d not in seen_ else 'data identifier named again', len(good), 2))
+            seen_.add(d)
             good += d.to_bytes(2, 'big') + v
-        expect = 'rdbi ' + (','.join('%d=%s' % (d, bh(vals[d])) for d in lst) if lst else '-')
+        expect = 'rdbi ' + (','.join('%d=%s' % (d, bh(vals[d])) for d in dict.fromkeys(lst)) if lst else '-')
         dline = 'dec e=rdbi %s tol=%s dids=%s' % (didcfg_line(default), b01(tol), ','.join(str(d) for d in lst))
         dump = lambda r: 'rdbi ' + (','.join('%d=%s' % (k_, bh(raw(v_))) for k_, v_ in r.service_data.values.items()) or '-')
         last_all = DIDS.get(lst[-1], default)[1] is None
